@@ -58,10 +58,26 @@ pub enum Op {
     AddOne(usize),
     AddBatch(Vec<usize>),
     Autoescape(usize),
+    /// the same sources through `add_template_file(s)`: one file per pool entry, explicit names; optionally a path that does not exist at a position of the batch
+    AddFiles(Vec<usize>, Option<u8>),
+}
+pub fn files_dir() -> std::path::PathBuf {
+    std::path::Path::new(VERIF_DIR).join("work").join("c10files")
+}
+/// one file per pool entry (content never changes, so writing is idempotent and safe to repeat)
+pub fn ensure_files() {
+    let d = files_dir();
+    let _ = std::fs::create_dir_all(&d);
+    for (i, (_, src, _)) in POOL.iter().enumerate() {
+        let p = d.join(format!("{i}.tpl"));
+        if std::fs::read_to_string(&p).ok().as_deref() != Some(*src) {
+            let _ = std::fs::write(&p, src);
+        }
+    }
 }
 pub fn op_strategy() -> BoxedStrategy<Op> {
     let idx = 0..POOL.len();
-    prop_oneof![5 => idx.clone().prop_map(Op::AddOne), 4 => prop::collection::vec(idx, 1..6).prop_map(Op::AddBatch), 1 => (0..SUFFIX_SETS.len()).prop_map(Op::Autoescape)].boxed()
+    prop_oneof![5 => idx.clone().prop_map(Op::AddOne), 4 => prop::collection::vec(idx.clone(), 1..6).prop_map(Op::AddBatch), 1 => (0..SUFFIX_SETS.len()).prop_map(Op::Autoescape), 2 => (prop::collection::vec(idx, 1..5), prop::option::weighted(0.25, any::<u8>())).prop_map(|(v, m)| Op::AddFiles(v, m))].boxed()
 }
 #[derive(Debug, Clone)]
 pub struct Config {
@@ -143,7 +159,8 @@ pub fn check_history(cfg: &Config, ops: &[Op], l: &mut Local) -> Check {
         Op::AddOne(i) => json!({"add": [POOL[*i].0, POOL[*i].1]}),
         Op::AddBatch(v) => json!({"batch": v.iter().map(|i| json!([POOL[*i].0, POOL[*i].1])).collect::<Vec<_>>()}),
         Op::Autoescape(s) => json!({"autoescape_on": SUFFIX_SETS[*s]}),
-    }).collect::<Vec<_>>(), "op_indices": ops.iter().map(|o| match o { Op::AddOne(i) => json!({"a": i}), Op::AddBatch(v) => json!({"b": v}), Op::Autoescape(s) => json!({"s": s}) }).collect::<Vec<_>>()});
+        Op::AddFiles(v, m) => json!({"add_template_files": v.iter().map(|i| json!([POOL[*i].0, POOL[*i].1])).collect::<Vec<_>>(), "nonexistent_path_at": m}),
+    }).collect::<Vec<_>>(), "op_indices": ops.iter().map(|o| match o { Op::AddOne(i) => json!({"a": i}), Op::AddBatch(v) => json!({"b": v}), Op::Autoescape(s) => json!({"s": s}), Op::AddFiles(v, m) => json!({"f": v, "m": m}) }).collect::<Vec<_>>()});
     let r = guard(|| -> Result<(u32, u32, bool), Fail> {
         let mut t = fresh(cfg, 0);
         let mut model: BTreeMap<String, String> = BTreeMap::new();
@@ -154,6 +171,7 @@ pub fn check_history(cfg: &Config, ops: &[Op], l: &mut Local) -> Check {
             let batch: Vec<usize> = match op {
                 Op::AddOne(i) => vec![*i],
                 Op::AddBatch(v) => v.clone(),
+                Op::AddFiles(v, _) => v.clone(),
                 Op::Autoescape(s) => {
                     suffixes = *s;
                     t.autoescape_on(SUFFIX_SETS[*s].to_vec());
@@ -169,7 +187,17 @@ pub fn check_history(cfg: &Config, ops: &[Op], l: &mut Local) -> Check {
                 }
             };
             let pairs: Vec<(String, String)> = batch.iter().map(|i| (POOL[*i].0.to_string(), POOL[*i].1.to_string())).collect();
-            let res = if pairs.len() == 1 && matches!(op, Op::AddOne(_)) { t.add_raw_template(&pairs[0].0, &pairs[0].1) } else { t.add_raw_templates(pairs.clone()) };
+            let res = if let Op::AddFiles(v, miss) = op {
+                let mut files: Vec<(std::path::PathBuf, Option<String>)> = v.iter().map(|i| (files_dir().join(format!("{i}.tpl")), Some(POOL[*i].0.to_string()))).collect();
+                if let Some(k) = miss {
+                    files.insert(*k as usize % (files.len() + 1), (files_dir().join(format!("no-such-file-{k}.tpl")), Some("ghost.html".to_string())));
+                }
+                let r = if files.len() == 1 { t.add_template_file(&files[0].0, files[0].1.as_deref()) } else { t.add_template_files(files) };
+                if miss.is_some() && r.is_ok() {
+                    return Err(Fail::new("C10/failed-add-not-atomic", format!("step {step}: add_template_files with a path that does not exist returned Ok"), case()));
+                }
+                r
+            } else if pairs.len() == 1 && matches!(op, Op::AddOne(_)) { t.add_raw_template(&pairs[0].0, &pairs[0].1) } else { t.add_raw_templates(pairs.clone()) };
             let mut after = model.clone();
             for (n, s) in &pairs {
                 after.insert(n.clone(), s.clone());
@@ -215,6 +243,12 @@ pub fn check_history(cfg: &Config, ops: &[Op], l: &mut Local) -> Check {
             }
             if ops.iter().any(|o| matches!(o, Op::Autoescape(_))) {
                 l.label("history:autoescape-reconfigured");
+            }
+            if ops.iter().any(|o| matches!(o, Op::AddFiles(..))) {
+                l.label("history:file-based-add");
+            }
+            if ops.iter().any(|o| matches!(o, Op::AddFiles(_, Some(_)))) {
+                l.label("history:file-batch-with-unreadable-path");
             }
             if fas && oks >= 2 {
                 l.nontrivial(hash_of(&format!("{:?}{:?}", cfg, ops)));
@@ -289,11 +323,12 @@ pub fn run(rep: &Report) {
             rep.fail(f);
         }
     }
+    ensure_files();
     let maxops = if rep.tier == Tier::Thorough { 40 } else { 12 };
     let n = rep.tier.scale(360_000, 6);
     run_family(rep, "histories", n, move || (any::<bool>(), any::<bool>(), prop::collection::vec(op_strategy(), 1..=maxops)), |(p, c, ops), l| check_history(&Config { prefixes: *p, custom_filter: *c }, ops, l));
     run_family(rep, "two_histories", n / 2, || (any::<bool>(), any::<bool>(), prop::collection::vec(0..POOL.len(), 1..10), any::<u64>()), |(p, c, e, s), l| check_two_histories(&Config { prefixes: *p, custom_filter: *c }, e, *s, l));
-    for (lab, min) in [("add:ok", 150_000), ("add:err", 150_000), ("history:failure-after-success", 50_000), ("history:duplicate-name-in-batch", 30_000), ("history:autoescape-reconfigured", 30_000), ("two-histories:compared", 3_000)] {
+    for (lab, min) in [("add:ok", 150_000), ("add:err", 150_000), ("history:failure-after-success", 50_000), ("history:duplicate-name-in-batch", 30_000), ("history:autoescape-reconfigured", 30_000), ("history:file-based-add", 50_000), ("history:file-batch-with-unreadable-path", 20_000), ("two-histories:compared", 3_000)] {
         rep.floor(lab, min);
     }
 }
@@ -310,11 +345,15 @@ pub fn replay(_rep: &Report, case: &serde_json::Value) -> Option<Check> {
                 if let Some(v) = o.get("b").and_then(|x| x.as_array()) {
                     return Some(Op::AddBatch(v.iter().filter_map(|x| x.as_u64().map(|i| i as usize)).collect()));
                 }
+                if let Some(v) = o.get("f").and_then(|x| x.as_array()) {
+                    return Some(Op::AddFiles(v.iter().filter_map(|x| x.as_u64().map(|i| i as usize)).collect(), o.get("m").and_then(|x| x.as_u64()).map(|m| m as u8)));
+                }
                 o.get("s").and_then(|x| x.as_u64()).map(|s| Op::Autoescape(s as usize))
             }).collect::<Option<_>>()?;
-            if ops.iter().any(|o| match o { Op::AddOne(i) => *i >= POOL.len(), Op::AddBatch(v) => v.iter().any(|i| *i >= POOL.len()), Op::Autoescape(s) => *s >= SUFFIX_SETS.len() }) {
+            if ops.iter().any(|o| match o { Op::AddOne(i) => *i >= POOL.len(), Op::AddBatch(v) | Op::AddFiles(v, _) => v.iter().any(|i| *i >= POOL.len()), Op::Autoescape(s) => *s >= SUFFIX_SETS.len() }) {
                 return None;
             }
+            ensure_files();
             Some(check_history(&cfg, &ops, &mut l))
         }
         _ => None,
